@@ -6,6 +6,7 @@ pub mod parser;
 pub mod resolve;
 pub mod value;
 pub mod vectors;
+pub mod walk;
 
 pub use lexer::Mode;
 
@@ -74,3 +75,46 @@ pub fn observe_block(block: &ast::Block, mode: Mode, fuel: i64, setup: &dyn Fn(&
         fuel_used: fuel - it.fuel,
     }
 }
+
+/// pure-Lua definition of the harness externals, so that a violation can be confirmed with a real interpreter:
+/// `lua -e "dofile('prelude.lua')" orig.lua` vs `out.lua`
+pub const PRELUDE_LUA: &str = r##"-- externals used by the verification harness (Lua 5.1 / Luau)
+local function ser(v, seen)
+  local t = type(v)
+  if t == "string" then return string.format("%q", v)
+  elseif t == "table" then
+    if rawget(v, "__tag") then return "<ET:" .. rawget(v, "__tag") .. ">" end
+    seen = seen or {}
+    if seen[v] then return "#" .. seen[v] end
+    seen.n = (seen.n or 0) + 1; seen[v] = seen.n
+    local parts = {}
+    for k, x in pairs(v) do parts[#parts + 1] = "[" .. ser(k, seen) .. "]=" .. ser(x, seen) end
+    table.sort(parts)
+    return "{" .. table.concat(parts, ",") .. "}"
+  elseif t == "function" then return "<fn>"
+  else return tostring(v) end
+end
+local function log(name, ...)
+  local parts = {}
+  for i = 1, select("#", ...) do parts[i] = ser((select(i, ...))) end
+  io.write(name, "(", table.concat(parts, ", "), ")\n")
+end
+function E1(...) log("E1", ...) return 1, 2 end
+function E0(...) log("E0", ...) end
+function EF(...) log("EF", ...) return false, "x" end
+function EN(...) log("EN", ...) return nil end
+function EI(...) log("EI", ...) return ... end
+EG = 42
+local mt = {}
+local rets = {__index = {7}, __newindex = {}, __call = {1, 2}, __add = {11}, __sub = {12}, __mul = {13}, __div = {14},
+  __mod = {15}, __pow = {16}, __idiv = {17}, __unm = {21}, __concat = {"cc"}, __eq = {true}, __lt = {true}, __le = {false}}
+for name, r in pairs(rets) do
+  mt[name] = function(...) log("mm:" .. name, ...) return unpack(r) end
+end
+function ET(tag) log("ET", tag) return setmetatable({__tag = tag}, mt) end
+-- run a chunk and print its results: lua prelude.lua file.lua
+if arg and arg[1] then
+  local f = assert(loadfile(arg[1]))
+  print("returned:", (function(...) local p = {} for i = 1, select("#", ...) do p[i] = ser((select(i, ...))) end return table.concat(p, ", ") end)(f()))
+end
+"##;
